@@ -55,6 +55,7 @@ type inprocReply struct {
 
 // inprocWorker is one subprocess; calls are serialised per worker.
 type inprocWorker struct {
+	env  []string
 	bin  string
 	cmd  *exec.Cmd
 	in   io.WriteCloser
@@ -64,7 +65,7 @@ type inprocWorker struct {
 
 func (w *inprocWorker) start() error {
 	w.cmd = exec.Command(w.bin)
-	w.cmd.Env = []string{"CI=true", "PATH=/usr/bin:/bin"}
+	w.cmd.Env = append([]string{"CI=true", "PATH=/usr/bin:/bin"}, w.env...)
 	var err error
 	if w.in, err = w.cmd.StdinPipe(); err != nil {
 		return err
